@@ -37,8 +37,21 @@ func runC11(c *engine.Ctx, tier string) {
 	codeOutcomeTable(c)
 	errorDomains(c, "C11.2", []string{pkgProposalCtl, pkgTransactionCtl, pkgConfigCtl, pkgMastershipCtl, pkgConnectionCtl, pkgTargetCtl, pkgNbGnmi, pkgNbAdmin})
 	classComposition(c)
+	// (5) the verdict computed from the device's answer is persisted, or the pass fails and is retried
+	for _, cl := range []string{"errors.IsConflict"} {
+		c.Outcome(engine.Outcome{ID: "C11.5/" + strings.TrimPrefix(cl, "errors.Is"), Pkg: pkgProposalCtl, Root: "Reconciler.Reconcile", Min: 1,
+			When:    "#wrote(config/v2.ProposalApplyPhase.State=config/v2.ProposalApplyPhase_FAILED) && #errIs(" + stPropUpdStat + "|" + cl + ")",
+			Returns: "err!=nil",
+			Why:     "the applied cursor has already passed the proposal when its FAILED state is written; if that write is lost and the pass reports success, the next pass finds the cursor at the proposal and records APPLIED: a refusal becomes a success"})
+	}
+	// (6) a refused change leaves no trace in the applied values (they are what is re-pushed after a reconnect)
+	c.Guard(engine.Guard{ID: "C11.6", Pkg: pkgProposalCtl, Min: 1,
+		Sel:     engine.Sel{Field: "config/v2.AppliedConfigurationStatus.Values[]"},
+		Require: "#ok(" + sbSet + ")",
+		Why:     "the device is left as it was: values the device refused must not enter the applied configuration, which is sent again in the next mastership term"})
 	// (4) transaction controller
 	c.Al = transactionAliases(c.P)
+	finalStatesEndWaits(c)
 	c.Outcome(engine.Outcome{ID: "C11.4", Pkg: pkgTransactionCtl, Root: "Reconciler.Reconcile", Min: 1,
 		When: "@T.Status.Phases.Apply != nil && @T.Status.Phases.Apply.State == config/v2.TransactionApplyPhase_APPLYING && err(@PE) == nil && @PE.Status.Phases.Apply != nil && @PE.Status.Phases.Apply.State == config/v2.ProposalApplyPhase_FAILED",
 		Must: []engine.Sel{
@@ -465,6 +478,73 @@ func classComposition(c *engine.Ctx) {
 		if back != n {
 			o.Fail(&engine.Violation{Key: "class composition|" + short, Pos: pkgProposalCtl,
 				Msg: fmt.Sprintf("device code %s is recorded as %s, reported through errors.%s, which the caller sees as %s", short, fail, ctor, back)})
+		}
+	}
+}
+
+// finalStatesEndWaits: C11.7. A wait on the predecessor transaction is never taken for a predecessor that failed.
+func finalStatesEndWaits(c *engine.Ctx) {
+	o := c.Custom("C11.7", "K-enum(wait predicate)", "a reconcile pass of the transaction controller whose last decision is a comparison of the predecessor transaction's Status.State and which then returns without any store write (a wait) is infeasible for State == FAILED",
+		"later transactions on the same target still proceed after a refusal: FAILED is the largest value of the enum, so a predicate written as 'not yet at X' must be '<', never '!='")
+	defer o.Done(3)
+	paths, err := c.A.Paths(pkgTransactionCtl)
+	if err != nil {
+		o.Undecided(pkgTransactionCtl, err.Error())
+		return
+	}
+	prev := c.Al.Expand("@PREVTS.Status.State")
+	failed := c.P.LookupConst("config/v2.TransactionStatus_FAILED")
+	if failed == nil {
+		o.Undecided("TransactionStatus_FAILED", "constant not found")
+		return
+	}
+	reported := map[string]bool{}
+	seen := map[string]bool{}
+	for _, p := range paths {
+		if p.Lit != nil || !strings.HasSuffix(p.Root.Name(), "Reconciler.Reconcile") {
+			continue
+		}
+		lastCond := -1
+		wrote := false
+		for i := range p.Events {
+			e := &p.Events[i]
+			switch e.Kind {
+			case engine.EvCond:
+				lastCond = i
+			case engine.EvCall:
+				if isStoreMutator(e.CalleeName) {
+					wrote = true
+				}
+			}
+		}
+		if lastCond < 0 || wrote {
+			continue
+		}
+		lc := &p.Events[lastCond]
+		if lc.Lit.L != prev && lc.Lit.R != prev {
+			continue
+		}
+		last := &p.Events[len(p.Events)-1]
+		if last.Kind != engine.EvReturn || len(last.Results) < 2 || last.Results[len(last.Results)-1] != "nil" {
+			continue
+		}
+		pos := c.P.Pos(lc.Pos)
+		if !seen[pos] {
+			seen[pos] = true
+			o.Site(pos + " wait on " + c.Render(lc.Lit.String()))
+		}
+		o.Eval(1)
+		var conds []engine.Lit
+		for i := range p.Events {
+			if p.Events[i].Kind == engine.EvCond {
+				conds = append(conds, p.Events[i].Lit)
+			}
+		}
+		conds = append(conds, engine.Lit{L: prev, R: "config/v2.TransactionStatus_FAILED", RConst: failed.Val(), Mask: 2, LType: failed.Type()})
+		if !engine.Unsat(conds, c.P.Domain) && !reported[pos] {
+			reported[pos] = true
+			o.Fail(&engine.Violation{Key: engine.FuncChainNoPos(p, lastCond) + "|wait taken for a FAILED predecessor", Pos: pos, Func: engine.FuncChain(p, lastCond),
+				Msg: "the pass returns without doing anything after testing " + c.Render(lc.Lit.String()) + ", and that test holds for a predecessor in state FAILED: a refused serializable transaction blocks every later transaction on the target"})
 		}
 	}
 }
